@@ -7,6 +7,7 @@ package c15
 
 import (
 	"fmt"
+	"io"
 	"os"
 	"strings"
 	"testing"
@@ -69,9 +70,17 @@ func runInBubble(outer *testing.T, r *run) bool {
 }
 
 func property(outer *testing.T, rec *vstats.Recorder, freeRun bool) func(*rapid.T) {
+	return propertyOf(outer, rec, freeRun, genProgram, false)
+}
+
+// propertyOf: the property over the programs of gen. oodRule: the unit's
+// non-triviality rule is the one of the out-of-domain units (an offending
+// consumer shares a stream clone with a consumer that reads or with a task)
+// instead of the general one.
+func propertyOf(outer *testing.T, rec *vstats.Recorder, freeRun bool, gen func(*rapid.T) *program, oodRule bool) func(*rapid.T) {
 	return func(t *rapid.T) {
 		c := rec.Begin()
-		p := genProgram(t)
+		p := gen(t)
 		rendered := p.String()
 		c.Add(rendered)
 
@@ -85,8 +94,19 @@ func property(outer *testing.T, rec *vstats.Recorder, freeRun bool) func(*rapid.
 		// Statistics.
 		consumers, readers, early, discards := 0, 0, 0, 0
 		complete := 0
+		size := len(p.src.data)
+		oodReturnedErr, oodReturnedOK := false, false
 		count := func(s *script, res *result) {
 			consumers++
+			if ood := s.outOfDomain(size); ood != oodNone {
+				c.Class("ood_" + ood)
+				c.Class("ood_" + ood + "_" + methodNames[s.method])
+				if res.err != nil && res.err != io.EOF {
+					oodReturnedErr = true
+				} else {
+					oodReturnedOK = true
+				}
+			}
 			if s.reading() {
 				readers++
 			} else {
@@ -145,7 +165,24 @@ func property(outer *testing.T, rec *vstats.Recorder, freeRun bool) func(*rapid.
 		mix := mixesCloneAndTask(p.root)
 		c.ClassIf(mix, "mixes_clone_and_task")
 		c.ClassIf(mix && streamKind, "mixes_clone_and_task_on_stream_source")
-		if mix && readers >= 2 {
+		oodShared := hasOutOfDomainUnderStreamClone(p.root, size)
+		c.ClassIf(oodShared, "ood_consumer_shares_stream_clone")
+		c.ClassIf(oodShared && streamKind, "ood_consumer_shares_stream_clone_on_stream_source")
+		c.ClassIf(oodShared && ops[opTeeTask] > 0, "ood_consumer_and_task_consuming_clone")
+		c.ClassIf(oodReturnedErr, "impl_ood_consumer_got_error")
+		c.ClassIf(oodReturnedOK, "impl_ood_consumer_got_regular_result")
+		tightCopy := false
+		walk(p.root, func(n *node) {
+			if n.op == opCloneCopy && n.max < size {
+				tightCopy = true
+			}
+		})
+		c.ClassIf(tightCopy, "ood_clonecopy_max_below_size")
+		if oodRule {
+			if oodShared && consumers >= 2 {
+				c.NonTrivial()
+			}
+		} else if mix && readers >= 2 {
 			c.NonTrivial()
 		}
 		c.Sample(func() string { return rendered })
@@ -168,4 +205,17 @@ var recRace = vstats.New("TestC15FreeRunning")
 // The schedule then is the Go scheduler's, not a generated value.
 func TestC15FreeRunning(t *testing.T) {
 	rapid.Check(t, property(t, recRace, true))
+}
+
+var recOOD = vstats.New("TestC15OutOfDomain")
+
+// TestC15OutOfDomain: programs in which one consumer of a stream clone (or
+// the consumer inside a task, or the holder of the task-decorated clone)
+// passes an out-of-domain argument: a negative or beyond-the-end offset to
+// ToChunkReader / ReadAt, a maximum below the object's size to ToByteSlice /
+// ToProto / CloneCopy. Whatever that consumer gets, it must return, every
+// other consumer and every task must finish with the data or an acceptable
+// error, and the source must be closed exactly once.
+func TestC15OutOfDomain(t *testing.T) {
+	rapid.Check(t, propertyOf(t, recOOD, false, genProgramOutOfDomain, true))
 }
